@@ -33,11 +33,15 @@ def _repo_srcs():
 
 HARNESS = {"src": "harness/c03.cpp", "repo_srcs": _repo_srcs(), "flags": ["-g1"], "libs": []}
 TIE = ("hand-written model (FcpptModel/Model/C03.lean) + differential correspondence against real typed fcppt::options parsers; "
-       "the C++ parsers and the Lean OP terms are generated from one shape list (tools/gen_c03_shapes.py)")
-RULE = ("ex sid n k <alphabet> <prefix>: digest over all argument vectors of length n over the shape's alphabet that start with the prefix, "
-        "each vector's line = result of parse()/parse_help() plus the result of the parser's own parse member (record, remaining "
-        "arguments, missing-vs-other). Exhaustive for every length <= 4 (quick) / <= 6 (thorough) for every shape; longer vectors "
-        "sampled. An op is non-trivial unless it is a constructor-only line; distinct = distinct op lines (digest lines weigh k^(n-|prefix|)).")
+       "the C++ parsers (eight generated translation units) and the Lean OP terms are generated from one shape list (tools/gen_c03_shapes.py)")
+RULE = ("ex sid n k <alphabet> <prefix>: digest over all argument vectors of length n over the shape's alphabet that start with the prefix; "
+        "perm / weave: digest over all orders of a vector / all merges of two vectors. Each vector's line = result of parse()/parse_help() "
+        "(record, or the text of the options::error through its operator<<, or the help text) plus the result of the parser's own parse "
+        "member (record, remaining arguments, missing-vs-other with the state and text the error carries), optionally under an explicit "
+        "parse_context (sid@names). info: flag_names / option_names / usage / name accessors of every constructed object. Exhaustive for "
+        "every length <= 4 (quick) / <= 6 (thorough) over the core alphabet for every shape, shorter over the extended, near-miss, numeric, "
+        "white-space alphabets and the explicit contexts; longer vectors structured (permutations, woven tokens) and sampled. "
+        "distinct = distinct op lines (digest lines weigh the number of vectors they cover).")
 ASSUMPTIONS = [
     "operator>> of std::string / int / unsigned: skips leading classic-locale white space, reads one word (validated by the exhaustive-space batches)",
     "num_get for int/unsigned in the classic locale: [+-]?[0-9]+, whole token, range-checked; a negative unsigned wraps modulo 2^32 (libstdc++)",
@@ -466,19 +470,26 @@ def batches(rng, tier):
 
 MANIFEST = {
     "level_text": ("Machine-checked proof (Lean 4) over an executable model that mirrors fcppt::options parser by parser (argument, flag/switch, option, "
-                   "unit, unit_switch, optional, many, product, sum, commands, parse_to_empty, parse_help, constructors, next_arg/use_flag/use_option): "
+                   "unit, unit_switch, optional, many, product, sum, commands, parse_to_empty, parse_help, constructors, next_arg/use_flag/use_option, "
+                   "usage(), every error / exception text, flag_names()/option_names() as sets, extract_from_string incl. white space): "
                    "for every parser, argument vector, context and fuel a successful parse accounts for every argument index exactly once "
-                   "(remaining state is a sublist, remaining ++ logged indices are a permutation of the input; parse_accounts_all, "
-                   "parse_each_index_exactly_once), next_arg returns exactly the first token that is neither a flag nor the value of an option "
-                   "of the context (next_arg_spec, option_value_never_positional, flags_never_positional), the constructors accept exactly the "
-                   "well-formed definitions (construct_ok_iff_wellformed), optional/many/sum are transactional, and every parser without a many "
-                   "around a non-consuming parser terminates (many_terminates). 'Same record as the reference' is the differential correspondence: "
-                   "66 generated typed parser shapes (int, unsigned, std::string, enum), all argument vectors up to length 6 over each shape's "
-                   "alphabet (thorough; 4 in quick) plus longer seeded vectors, observing parse()/parse_help() and the parser's own parse member."),
+                   "(parse_accounts_all, parse_each_index_exactly_once; parse_ignores_indices: the indices are bookkeeping only), next_arg "
+                   "returns exactly the first token that is neither a flag nor the value of an option of the context (next_arg_spec, "
+                   "option_value_never_positional), use_flag / use_option take exactly the first occurrence (and the element after it), "
+                   "commands gives every sub-command its own names as context (commands_unfold), the constructors accept exactly the "
+                   "well-formed definitions (construct_ok_iff_wellformed), optional/many/sum are transactional, parse_help answers with the "
+                   "wrapped parser's usage exactly when the vector is the help switch alone (help_only_alone_any, help_text_is_usage), the "
+                   "record has exactly the labels of the parser's result type (parse_result_labels), every parser without a many around a "
+                   "non-consuming parser terminates (many_terminates) and more fuel never changes a result (parse_fuel_monotone). "
+                   "'Same record as the reference' is the differential correspondence: 124 generated typed parser shapes (int, unsigned, "
+                   "std::string, enum; parsers by value, by reference, shared, copied, type-erased), all argument vectors up to length 6 over "
+                   "each shape's alphabet (thorough; 4 in quick), near misses of every name, numeric limits, white space, explicit contexts, "
+                   "all permutations and woven repetitions of accepted vectors, the static interface of every constructed object; every "
+                   "text the library builds (usage, help, error, exception) is compared character by character."),
     "level_note": ("Trusted: Lean kernel + propext/Classical.choice/Quot.sound; fidelity of the hand-written model outside the exercised inputs; "
-                   "harness, shape generator and digest protocol; libstdc++ num_get modelled as [+-]?[0-9]+ with range check. fuel monotonicity is not proved "
-                   "(all theorems hold for every fuel). Open known finding: many(<parser that succeeds without consuming>) does not "
-                   "terminate (model: diverge for every fuel, harness: TIMEOUT). No sorry/axiom/native_decide."),
+                   "harness, shape generator and digest protocol; libstdc++ num_get / operator>> modelled as [ws]*[+-]?[0-9]+ with range check. "
+                   "Open known finding: many(<parser that succeeds without consuming>) does not terminate (model: diverge for every fuel, "
+                   "harness: TIMEOUT). No sorry/axiom/native_decide."),
     "technique": "Lean 4 proof over hand-written executable model + exhaustive differential correspondence (ASan/UBSan harness)",
     "design_ref": "DESIGN.md §5 C03, Appendix A.2",
 }
